@@ -325,7 +325,26 @@ def secrets_work(mi):
     return res
 
 
+def describe_blob(blob_hex):
+    """facts about a mutated blob for the class predicates of known findings: packet tags seen by the independent splitter (None when it
+    cannot be split) and whether PGPy's parser takes it for an encrypted message"""
+    out = {'blob_tags': None, 'parsed_is_encrypted': None}
+    if blob_hex is None:
+        return out
+    blob = bytes.fromhex(blob_hex)
+    try:
+        out['blob_tags'] = [t for t, _, _ in indep.packets(blob)]
+    except Exception:
+        pass
+    try:
+        out['parsed_is_encrypted'] = bool(pgpy.PGPMessage.from_blob(blob).is_encrypted)
+    except Exception:
+        pass
+    return out
+
+
 def component(tier='quick', seed=0, known=()):
+    known = [f for f in known if f.get('status', 'known') == 'known']
     rnd = random.Random(seed)
     keys()
     String2Key.derive_key = _memo_derive
@@ -384,6 +403,7 @@ def component(tier='quick', seed=0, known=()):
             sig = (outcome, opener.split(':')[0], kind, detail.split(':')[0][:40])
             case = {'message': MSGS[mi]['name'], 'mutation': label, 'opener': opener, 'outcome': outcome, 'forged_content': 'clear-text' in detail,
                     'blob_hex': blob, 'original_hex': MSGS[mi]['raw'].hex(), 'passphrase': PW, 'same_class_count': 1}
+            case.update(describe_blob(blob))
             k = match_known(case, known)
             if k is not None:
                 if k not in known_hits:
